@@ -4,6 +4,7 @@ import (
 	"bytes"
 	"encoding/binary"
 	"fmt"
+	"github.com/nsqio/nsq/internal/lg"
 	"math/rand"
 	"os"
 	"strconv"
@@ -755,6 +756,10 @@ func (r *Run) httpAdmin(path string) int {
 // ---- orchestration ------------------------------------------------------
 
 func (r *Run) nodeOpts(o *nsqd.Options) {
+	if r.sc.Seed%3 == 1 {
+		// a third of the runs with --log-level=debug (the output is thrown away; what is logged is not)
+		o.LogLevel = lg.DEBUG
+	}
 	o.MemQueueSize = r.sc.MemQ
 	o.MaxBytesPerFile = r.sc.MaxBytes
 	o.MsgTimeout = r.sc.MsgTimeout
